@@ -28,7 +28,7 @@ def clip_cases(draw, convs=S.ALL_CONVS, mesh_coords_as=None, max_vars=4):
         "spec": spec,
         "geom": draw(c07.GEOM),
         "buffer": draw(st.sampled_from([0, 0, 1, 1, 2])),
-        "route": draw(st.sampled_from(["clip", "make_apply", "apply_twice", "saved_mask_second_dataset"])),
+        "route": draw(st.sampled_from(["clip", "clip_after_other_buffer", "make_apply", "apply_twice", "saved_mask_second_dataset"])),
         "subset": draw(st.lists(st.integers(0, 7), max_size=3)),
     }
 
@@ -102,6 +102,17 @@ def run_clip(ctx, clause, case, ds, conv, geom, workdir):
     with warnings.catch_warnings():
         warnings.simplefilter("ignore")
         if route == "clip":
+            out = conv.clip(geom, work, buffer=buffer)
+            source = spec
+        elif route == "clip_after_other_buffer":
+            # history: the same dataset object was clipped before, with an equal geometry and
+            # another buffer; the result examined is the second one
+            first_dir = os.path.join(workdir, "first")
+            os.makedirs(first_dir, exist_ok=True)
+            other = buffer + 1 if buffer == 0 else buffer - 1
+            first = conv.clip(shapely.from_wkb(geom.wkb), first_dir, buffer=other)
+            first.load()
+            first.close()
             out = conv.clip(geom, work, buffer=buffer)
             source = spec
         elif route in ("make_apply", "apply_twice"):
